@@ -1,7 +1,7 @@
 (* Correspondence for C31: flat SQL date calls with integer arguments and the observed result. *)
 From Coq Require Import List NArith ZArith Bool.
 Import ListNotations.
-From GMS Require Import Base.CorrLib Codec.C31Date.
+From GMS Require Import Base.CorrLib Codec.C31Date Codec.C31Format.
 Open Scope Z_scope.
 
 (* function id, integer arguments, observed result (None = NULL; a date is [y; m; d], a number is [n]) *)
@@ -20,6 +20,13 @@ Definition model (fn : N) (args : list Z) : option (option (list Z)) :=
   | 6%N, [y; m; d] => Some (match str_to_date_ymd false y m d with Some dt => d3 dt | None => None end)
   | 7%N, [y1; m1; d1; t1; y2; m2; d2; t2] => Some (Some [timestampdiff_seconds (y1, m1, d1) t1 (y2, m2, d2) t2])
   | 8%N, [u; y1; m1; d1; t1; y2; m2; d2; t2] => Some (Some [timestampdiff_unit u (y1, m1, d1) t1 (y2, m2, d2) t2])
+  (* DATE_FORMAT: year, month, day, hour, minute, second, microsecond, then the bytes of the format;
+     the observed result is the list of output bytes *)
+  | 9%N, y :: m :: d :: h :: i :: s :: u :: fmt =>
+      match render (map Z.to_N fmt) {| yr := y; mo := m; dy := d; hh := h; mi := i; ss := s; us := u |} with
+      | Some out => Some (Some (map Z.of_N out))
+      | None => None
+      end
   | _, _ => None
   end.
 
